@@ -438,7 +438,7 @@ def run_check(modname, tier, seed):
     floor = getattr(mod, "NONTRIVIAL_FLOOR", 0.0)
     harness_error = None
     if st.errors:
-        harness_error = "harness errors: " + " | ".join(e[-1500:] for e in st.errors[:3])
+        harness_error = "harness errors (%d): " % len(st.errors) + st.errors[0][-1500:]
     elif st.generated and st.nontrivial_generated / st.generated < floor:
         harness_error = ("non-trivial fraction %.3f below floor %.3f - generator broken"
                          % (st.nontrivial_generated / st.generated, floor))
